@@ -39,7 +39,7 @@ def run(ctx):
         ctx.tlc("ws", "Gen_WsReader", "Gen_WsReader_%s.%s.cfg" % (f, t), cases_to=cases, timeout=1500, count_states=False)
     if t == "thorough":
         ctx.exhaustive = False
-        ctx.tlc("ws", "Gen_WsReader", "Gen_WsReader_sim.cfg", cases_to=cases, simulate=5000, depth=40, workers=1, timeout=900)
+        ctx.tlc("ws", "Gen_WsReader", "Gen_WsReader_sim.cfg", cases_to=cases, simulate=2000, depth=40, workers=1, timeout=900)
     res = ctx.replay("reader", cases, timeout=3000)
     ctx.judge("reader", cases, res)
     ctx.notes["connections_driven"] = sum(int(r.get("info") or 0) for r in res)
